@@ -10,10 +10,9 @@ RULE = ("westfall_young driven by a scripted Randomizer and table-lookup test fu
         "in_place; every row of tables with <= 8 rows rotated into the observed position (exact FWER); "
         "non-trivial = more than one hypothesis or a tie with the observed statistic; distinct by table and options")
 LEVEL = ("theorems wy_minp_raw_spec, wy_minp_adj_ge_raw, wy_minp_range, wy_minp_order, wy_minp_min_is_rank, "
-         "wy_minp_fwer_exact (+ maxT analogues) for every table; model validated against npc.westfall_young")
+         "wy_minp_fwer_exact (+ maxT analogues) for every table; Relabel.wy_minp_relabel / wy_maxt_relabel (relabelling equivariance for distinct raw p-values / statistics, every relabelling); model validated against npc.westfall_young")
 ASSUMPTIONS = ["maxT with a per-test list mixing 'greater' and 'two-sided' is not modelled (the sort key of the code depends on the "
-               "last test only); mixed lists are checked for minP",
-               "relabelling equivariance is checked on the implementation for distinct raw p-values / statistics, not proved"]
+               "last test only); mixed lists are checked for minP"]
 
 
 def stepdown_oracle(ts, tv, method, two):
